@@ -49,14 +49,14 @@ uint8_t xv_g_b0, xv_g_b1;       /* ghost constants bound to entry values by requ
 #define XV_P_BTCP (XV_PC('b', 0) | XV_PC('t', 1) | XV_PC('c', 2) | XV_PC('p', 3))
 #define XV_P_BTLS (XV_PC('b', 0) | XV_PC('t', 1) | XV_PC('l', 2) | XV_PC('s', 3))
 #define XV_BEQ(a, b) (!(a) == !(b))
-#define XV_ISSPACE2(c) ((c) == 32)
 
 /* ================================================================================================================ */
 #if defined(XV_AP_ADDR) || defined(XV_AP_DNS)
 /* the input string (env/addrpub_env.h): an object of exactly xv_in_len + 1 bytes, NUL at xv_in_len, no NUL at the
  * arbitrary position xv_j before it */
 #define XV_IN_MAXLEN 4096      /* input strings longer than this are not explored (is_fresh needs a bound); > 7 * XCM_ADDR_MAX */
-#define XV_INSTR(s) (xv_in_len <= XV_IN_MAXLEN && __CPROVER_is_fresh((s), xv_in_len + 1) && (s)[xv_in_len] == 0 && \
+#define XV_IN_OBJSZ (xv_in_len + 1)
+#define XV_INSTR(s) (xv_in_len <= XV_IN_MAXLEN && xv_in_len < XV_IN_OBJSZ && __CPROVER_is_fresh((s), XV_IN_OBJSZ) && (s)[xv_in_len] == 0 && \
                      (XV_J_IN(0, xv_in_len) ==> (s)[xv_j] != 0))
 
 /* ---- xcm_dns_is_valid_name: the length gate is real code, the verdict on the syntax is regexec's (TRUSTED) */
@@ -73,16 +73,96 @@ __CPROVER_ensures(xv_in_len + 1 <= XV_NAME_ROOM ==> (xv_regexec_calls == __CPROV
 #endif
 
 /* ================================================================================================================ */
+/* ---- the makers' vocabulary (xv_mk_*) --------------------------------------------------------------------------- */
+int xv_mk_calls, xv_mk_rv, xv_mk_errno, xv_mk_type, xv_mk_family; uint64_t xv_mk_proto; uint16_t xv_mk_port; size_t xv_mk_cap;
+_Bool xv_mk_out, xv_mk_namep; uint32_t xv_mk_ip4; uint8_t xv_mk_ipb; char xv_mk_namec;
+char *xv_t_out; const char *xv_t_name, *xv_t_addr;   /* tracked pointers: never assigned, arbitrary */
+size_t xv_proto_sz;                                   /* size of the protocol-name object given to host_port_make (never assigned) */
+#define XV_T_UX (-7)                                  /* xv_mk_type of a UX/UXF address (no host) */
+#define XV_MK_GHOSTS xv_mk_calls, xv_mk_rv, xv_mk_errno, xv_mk_type, xv_mk_family, xv_mk_proto, xv_mk_port, xv_mk_cap, xv_mk_out, xv_mk_namep, xv_mk_ip4, xv_mk_ipb, xv_mk_namec
+#define XV_MK_ASSIGNS xv_errno, xv_snprintf_ret, xv_snprintf_cap, xv_snprintf_calls, XV_MK_GHOSTS
+#define XV_MK_PRE (xv_mk_calls >= 0 && xv_mk_calls < 100 && xv_snprintf_calls >= 0 && xv_snprintf_calls < 100 && XV_I16_OK && XV_NJ_OK)
+#define XV_FAM_OK(f) ((f) == AF_INET || (f) == AF_INET6)
+#define XV_HOST_OK(h) ((h)->type == xcm_addr_type_name || (h)->type == xcm_addr_type_ip)
+/* (text of contracts/addr.h) one snprintf was made with the caller's buffer/capacity and success is reported only if everything fitted */
+#define MAKE_HONEST(rv, capacity) \
+    ((rv) == 0 ==> (xv_snprintf_calls == __CPROVER_old(xv_snprintf_calls) + 1 && xv_snprintf_cap == (capacity) && \
+                    xv_snprintf_ret >= 0 && (size_t)xv_snprintf_ret < (capacity)))
+#define MAKE_FAIL(rv) ((rv) == 0 || ((rv) == -1 && (xv_errno == ENAMETOOLONG || xv_errno == EINVAL || xv_errno == EAFNOSUPPORT)))
+/* the record of ONE innermost maker call: protocol name, port, capacity, buffer, and the host it was given */
+#define XV_MK_CALL(pk, port, out, cap) (xv_mk_calls == __CPROVER_old(xv_mk_calls) + 1 && xv_mk_proto == (pk) && xv_mk_port == (port) && xv_mk_cap == (cap) && \
+                                        XV_BEQ(xv_mk_out, (out) == xv_t_out) && __CPROVER_return_value == xv_mk_rv && xv_errno == xv_mk_errno)
+#define XV_MK_IPREC(ip_) (xv_mk_type == (int)xcm_addr_type_ip && xv_mk_family == (int)(ip_)->family && xv_mk_ip4 == (ip_)->addr.ip4 && xv_mk_ipb == (ip_)->addr.ip6[xv_i16])
+#define XV_MK_HOSTREC(h) ((h)->type == xcm_addr_type_ip ? XV_MK_IPREC(&(h)->ip) : (xv_mk_type == (int)xcm_addr_type_name && xv_mk_namec == (h)->name[xv_nj]))
+/* ASSUMED (libc: inet_ntop never fails for a valid family and a 46-byte buffer; "<proto>:[<ip6>]:<port>" has at most
+ * 5+1+1+45+1+1+5 = 59 characters): an IP host with a valid family and room for 64 bytes is always formatted.  This is the
+ * premise under which tp_sockaddr_to_X_addr() may ut_assert(rc == 0). */
+#define XV_IP_ADDR_ROOM 64
+#define XV_MK_IP_OK(type_, fam_, cap) (((type_) == xcm_addr_type_ip && XV_FAM_OK(fam_) && (cap) >= XV_IP_ADDR_ROOM) ==> __CPROVER_return_value == 0)
+
+/* ---- the parsers' vocabulary (xv_pf_*) -------------------------------------------------------------------------- */
+int xv_pf_calls, xv_pf_rv, xv_pf_errno, xv_pf_type, xv_pf_family; uint64_t xv_pf_proto; uint16_t xv_pf_port; size_t xv_pf_cap;
+_Bool xv_pf_addr, xv_pf_namep; uint32_t xv_pf_ip4; uint8_t xv_pf_ipb; char xv_pf_namec;
+#define XV_PF_GHOSTS xv_pf_calls, xv_pf_rv, xv_pf_errno, xv_pf_type, xv_pf_family, xv_pf_proto, xv_pf_port, xv_pf_cap, xv_pf_addr, xv_pf_namep, xv_pf_ip4, xv_pf_ipb, xv_pf_namec
+#define XV_PF_PRE (xv_pf_calls >= 0 && xv_pf_calls < 100 && XV_I16_OK && XV_NJ_OK)
+/* the record of ONE innermost parser call: protocol name, the address string, result, errno */
+#define XV_PF_CALL(pk, addr_s) (xv_pf_calls == __CPROVER_old(xv_pf_calls) + 1 && xv_pf_proto == (pk) && XV_BEQ(xv_pf_addr, (addr_s) == xv_t_addr) && \
+                                (xv_pf_rv == 0 || xv_pf_rv == -1) && (xv_pf_rv == -1 ==> (xv_pf_errno == EINVAL || xv_pf_errno == ENAMETOOLONG)))
+/* ... and of the host and port it delivered (valid on success; a host is a DNS name or an IPv4/IPv6 address) */
+#define XV_PF_DELIVERED(h, port) (xv_pf_type == (int)(h)->type && XV_HOST_OK(h) && xv_pf_port == *(port) && \
+        ((h)->type == xcm_addr_type_ip ? (XV_FAM_OK((h)->ip.family) && xv_pf_family == (int)(h)->ip.family && xv_pf_ip4 == (h)->ip.addr.ip4 && xv_pf_ipb == (h)->ip.addr.ip6[xv_i16]) \
+                                       : xv_pf_namec == (h)->name[xv_nj]))
+/* contract text of a <proto>:<host>:<port> parser (host_port_parse with its protocol name, or a public xcm_addr_parse_X) */
+#define XV_PF_POST(pk, addr_s, h, port) (XV_PF_CALL(pk, addr_s) && __CPROVER_return_value == xv_pf_rv && xv_errno == xv_pf_errno && \
+                                         (__CPROVER_return_value == 0 ==> XV_PF_DELIVERED(h, port)) && (__CPROVER_return_value == -1 ==> *(port) == __CPROVER_old(*(port))))
+#define XV_PF_WRAPPER(fn, pk) \
+    int fn(const char *addr_s, struct xcm_addr_host *host, uint16_t *port) \
+    __CPROVER_requires(__CPROVER_is_fresh(addr_s, 8) && __CPROVER_is_fresh(host, sizeof(*host)) && __CPROVER_is_fresh(port, sizeof(*port)) && XV_PF_PRE) \
+    __CPROVER_assigns(xv_errno, XV_PF_GHOSTS, __CPROVER_object_whole(host), *port) \
+    __CPROVER_ensures(XV_PF_POST(pk, addr_s, host, port))
+/* UX / UXF: name buffer and capacity instead of host and port */
+#define XV_UXP_POST(pk, addr_s, name, cap) (XV_PF_CALL(pk, addr_s) && XV_BEQ(xv_pf_namep, (name) == xv_t_out) && xv_pf_cap == (cap) && \
+                                            __CPROVER_return_value == xv_pf_rv && xv_errno == xv_pf_errno)
+#define XV_UXP_WRAPPER(fn, pk) \
+    int fn(const char *addr_s, char *name, size_t capacity) \
+    __CPROVER_requires(__CPROVER_is_fresh(addr_s, 8) && capacity <= XV_CAP_MAX && XV_OUT(name, capacity) && XV_PF_PRE) \
+    __CPROVER_assigns(xv_errno, XV_PF_GHOSTS) \
+    __CPROVER_assigns(capacity > 0: __CPROVER_object_upto(name, capacity)) \
+    __CPROVER_ensures(XV_UXP_POST(pk, addr_s, name, capacity))
+/* contract text of a public maker */
+#define XV_MK_WRAPPER(fn, pk, PT) \
+    int fn(const struct xcm_addr_host *host, PT port, char *out, size_t capacity) \
+    __CPROVER_requires(__CPROVER_is_fresh(host, sizeof(*host)) && XV_HOST_OK(host) && capacity <= XV_CAP_MAX && XV_OUT(out, capacity) && XV_MK_PRE) \
+    __CPROVER_assigns(XV_MK_ASSIGNS) \
+    __CPROVER_assigns(capacity > 0: __CPROVER_object_upto(out, capacity)) \
+    __CPROVER_ensures(XV_MK_CALL(pk, port, out, capacity) && XV_MK_HOSTREC(host)) \
+    __CPROVER_ensures(MAKE_HONEST(__CPROVER_return_value, capacity) && MAKE_FAIL(__CPROVER_return_value) && XV_MK_IP_OK(host->type, host->ip.family, capacity))
+#define XV_UXM_WRAPPER(fn, pk) \
+    int fn(const char *name, char *out, size_t capacity) \
+    __CPROVER_requires(__CPROVER_is_fresh(name, 8) && name[7] == 0 && capacity <= XV_CAP_MAX && XV_OUT(out, capacity) && XV_MK_PRE) \
+    __CPROVER_assigns(XV_MK_ASSIGNS) \
+    __CPROVER_assigns(capacity > 0: __CPROVER_object_upto(out, capacity)) \
+    __CPROVER_ensures(XV_MK_CALL(pk, 0, out, capacity) && xv_mk_type == XV_T_UX && XV_BEQ(xv_mk_namep, name == xv_t_name)) \
+    __CPROVER_ensures(MAKE_HONEST(__CPROVER_return_value, capacity) && MAKE_FAIL(__CPROVER_return_value))
+
+/* ================================================================================================================ */
 #ifdef XV_AP_ADDR
 /* ---- has_space -------------------------------------------------------------------------------------------------- */
-/* its only caller reaches it with at most XCM_ADDR_MAX characters (short-circuit ||): checked as a precondition there */
+/* its only caller reaches it with at most XCM_ADDR_MAX characters (short-circuit ||): checked as a precondition there.
+ * In every job but its own the contract additionally RECORDS the verdict (xv_hs_calls, xv_hs_rv), so that the caller's
+ * contract can say "refused because has_space said so"; has_space.c (bounded) shows that the verdict is exact. */
+int xv_hs_calls; _Bool xv_hs_rv;
 static bool has_space(const char *s)
 __CPROVER_requires(XV_INSTR(s) && xv_in_len <= XCM_ADDR_MAX)
+#ifdef XV_AP_HS_ENFORCED
 __CPROVER_assigns()
+#else
+__CPROVER_requires(xv_hs_calls >= 0 && xv_hs_calls < 100)
+__CPROVER_assigns(xv_hs_calls, xv_hs_rv)
+__CPROVER_ensures(xv_hs_calls == __CPROVER_old(xv_hs_calls) + 1 && XV_BEQ(xv_hs_rv, __CPROVER_return_value))
+#endif
 /* PO[C12] has_space.none_missed: false only if no character of the string is white space (stated for the arbitrary position xv_j) */
 __CPROVER_ensures((!__CPROVER_return_value && XV_J_IN(0, xv_in_len)) ==> !XV_ISSPACE(s[xv_j]))
-/* PO[C12] has_space.no_false_alarm: true only if some character of the string is white space */
-//XX__CPROVER_ensures(__CPROVER_return_value ==> __CPROVER_exists { size_t k_; (k_ <= XCM_ADDR_MAX) && (k_ < xv_in_len && XV_ISSPACE2(s[k_])) })
 ;
 
 /* ---- proto_addr_parse ------------------------------------------------------------------------------------------- */
@@ -92,14 +172,15 @@ __CPROVER_ensures((!__CPROVER_return_value && XV_J_IN(0, xv_in_len)) ==> !XV_ISS
 #define xv_pa_len xv_cpy_len
 #define PAP_REST (xv_in_len - xv_chr_pos - 1)         /* length of the text after the first ':' */
 #define PAP_WELLFORMED(s) (xv_in_len <= XCM_ADDR_MAX && xv_chr_found && xv_chr_pos < xv_in_len && (s)[xv_chr_pos] == ':' && xv_chr_pos <= XCM_ADDR_MAX_PROTO_LEN && \
+                           xv_hs_calls == __CPROVER_old(xv_hs_calls) + 1 && !xv_hs_rv && \
                            (XV_J_IN(0, xv_in_len) ==> !XV_ISSPACE((s)[xv_j])) && (XV_J_IN(0, xv_chr_pos) ==> (s)[xv_j] != ':'))
 static int proto_addr_parse(const char *addr_s, char *proto, size_t proto_capacity, char *proto_addr, size_t proto_addr_capacity)
 __CPROVER_requires(XV_INSTR(addr_s))
 __CPROVER_requires(proto_capacity <= XV_CAP_MAX && XV_OUT(proto, proto_capacity) && proto_addr_capacity <= XV_CAP_MAX && XV_OUT(proto_addr, proto_addr_capacity))
 __CPROVER_requires(xv_hb >= 0 && xv_hb < XV_CAP_MAX && (xv_hb < (long)proto_capacity ==> (uint8_t)proto[xv_hb] == xv_g_b0) && (xv_hb < (long)proto_addr_capacity ==> (uint8_t)proto_addr[xv_hb] == xv_g_b1))
-__CPROVER_requires(xv_chr_calls >= 0 && xv_chr_calls < 100)
+__CPROVER_requires(xv_chr_calls >= 0 && xv_chr_calls < 100 && xv_hs_calls >= 0 && xv_hs_calls < 100)
 /* the frame: errno, the records of the string models, and the two buffers WITHIN their capacities - nothing else */
-__CPROVER_assigns(xv_errno, xv_chr_calls, xv_chr_found, xv_chr_pos, xv_ncpy_len, xv_cpy_len)
+__CPROVER_assigns(xv_errno, xv_chr_calls, xv_chr_found, xv_chr_pos, xv_ncpy_len, xv_cpy_len, xv_hs_calls, xv_hs_rv)
 __CPROVER_assigns(proto_capacity > 0: __CPROVER_object_upto(proto, proto_capacity))
 __CPROVER_assigns(proto_addr_capacity > 0: __CPROVER_object_upto(proto_addr, proto_addr_capacity))
 /* (text of contracts/addr.h, both instantiations) */
@@ -111,19 +192,157 @@ __CPROVER_ensures(__CPROVER_return_value == 0 ==> (xv_pp_len <= XCM_ADDR_MAX_PRO
 __CPROVER_ensures(__CPROVER_return_value == 0 ==> PAP_WELLFORMED(addr_s))
 /* PO[C12] proto_addr_parse.fits: success only if both parts fit their buffers together with their NUL (capacity 0 never succeeds) */
 __CPROVER_ensures(__CPROVER_return_value == 0 ==> (xv_chr_pos < proto_capacity && PAP_REST < proto_addr_capacity))
-/* PO[C12] proto_addr_parse.outputs_exact: the outputs are NUL-terminated and are exactly the text before / after the first ':' */
+/* PO[C12] proto_addr_parse.proto_exact: the protocol output is NUL-terminated and is exactly the text before the first ':' */
 __CPROVER_ensures(__CPROVER_return_value == 0 ==> (xv_pp_len == xv_chr_pos && proto[xv_chr_pos] == 0 && (XV_J_IN(0, xv_chr_pos) ==> proto[xv_j] == addr_s[xv_j])))
+/* PO[C12] proto_addr_parse.rest_exact: the second output is NUL-terminated and is exactly the text after the first ':' */
 __CPROVER_ensures(__CPROVER_return_value == 0 ==> (xv_pa_len == PAP_REST && proto_addr[PAP_REST] == 0 && (XV_J_IN(0, PAP_REST) ==> proto_addr[xv_j] == addr_s[xv_chr_pos + 1 + (size_t)xv_j])))
-/* PO[C12] proto_addr_parse.refuses_for_a_reason: EINVAL only for an over-long string, white space, no ':' or an over-long protocol part; ENAMETOOLONG only for a well-formed string one of whose parts does not fit */
+/* PO[C12] proto_addr_parse.einval_for_a_reason: EINVAL only for an over-long string, white space (has_space said so), no ':' at all, or an over-long protocol part */
 __CPROVER_ensures((__CPROVER_return_value == -1 && xv_errno == EINVAL) ==> ( \
-        xv_in_len > XCM_ADDR_MAX || \
-        __CPROVER_exists { size_t k_; (k_ <= XCM_ADDR_MAX) && (k_ < xv_in_len && XV_ISSPACE(addr_s[k_])) } || \
+        xv_in_len > XCM_ADDR_MAX || (xv_hs_calls == __CPROVER_old(xv_hs_calls) + 1 && xv_hs_rv) || \
         (!xv_chr_found && (XV_J_IN(0, xv_in_len) ==> addr_s[xv_j] != ':')) || \
-        (xv_chr_found && xv_chr_pos < xv_in_len && addr_s[xv_chr_pos] == ':' && xv_chr_pos > XCM_ADDR_MAX_PROTO_LEN)))
+        (xv_chr_found && xv_chr_pos < xv_in_len && addr_s[xv_chr_pos] == ':' && (XV_J_IN(0, xv_chr_pos) ==> addr_s[xv_j] != ':') && xv_chr_pos > XCM_ADDR_MAX_PROTO_LEN)))
+/* PO[C12] proto_addr_parse.toolong_for_a_reason: ENAMETOOLONG only for a well-formed string one of whose parts does not fit its buffer */
 __CPROVER_ensures((__CPROVER_return_value == -1 && xv_errno == ENAMETOOLONG) ==> (PAP_WELLFORMED(addr_s) && (xv_chr_pos >= proto_capacity || PAP_REST >= proto_addr_capacity)))
 /* failure writes nothing into either buffer (byte at the arbitrary offset xv_hb) */
 __CPROVER_ensures(__CPROVER_return_value == -1 ==> ((xv_hb < (long)proto_capacity ==> (uint8_t)proto[xv_hb] == xv_g_b0) && (xv_hb < (long)proto_addr_capacity ==> (uint8_t)proto_addr[xv_hb] == xv_g_b1)))
 ;
+
+/* ---- xcm_addr_parse_proto: proto_addr_parse with the caller's buffer and capacity and a scratch buffer that takes any
+ * remainder (XCM_ADDR_MAX + 1 bytes), so the only ENAMETOOLONG left is the protocol buffer's */
+int xcm_addr_parse_proto(const char *addr_s, char *proto, size_t capacity)
+__CPROVER_requires(XV_INSTR(addr_s) && capacity <= XV_CAP_MAX && XV_OUT(proto, capacity))
+__CPROVER_requires(xv_hb >= 0 && xv_hb < XV_CAP_MAX && (xv_hb < (long)capacity ==> (uint8_t)proto[xv_hb] == xv_g_b0))
+__CPROVER_requires(xv_chr_calls >= 0 && xv_chr_calls < 100 && xv_hs_calls >= 0 && xv_hs_calls < 100)
+__CPROVER_assigns(xv_errno, xv_chr_calls, xv_chr_found, xv_chr_pos, xv_ncpy_len, xv_cpy_len, xv_hs_calls, xv_hs_rv)
+__CPROVER_assigns(capacity > 0: __CPROVER_object_upto(proto, capacity))
+__CPROVER_ensures(__CPROVER_return_value == 0 || (__CPROVER_return_value == -1 && (xv_errno == EINVAL || xv_errno == ENAMETOOLONG)))
+/* PO[C12] xcm_addr_parse_proto.accepts_only_wellformed */
+__CPROVER_ensures(__CPROVER_return_value == 0 ==> (PAP_WELLFORMED(addr_s) && xv_chr_pos < capacity))
+/* PO[C12] xcm_addr_parse_proto.proto_exact: the caller's buffer holds exactly the text before the first ':' and its NUL */
+__CPROVER_ensures(__CPROVER_return_value == 0 ==> (proto[xv_chr_pos] == 0 && (XV_J_IN(0, xv_chr_pos) ==> proto[xv_j] == addr_s[xv_j])))
+/* PO[C12] xcm_addr_parse_proto.toolong_means_capacity: ENAMETOOLONG exactly when a well-formed address has a protocol part that does not fit the caller's capacity */
+__CPROVER_ensures((__CPROVER_return_value == -1 && xv_errno == ENAMETOOLONG) ==> (PAP_WELLFORMED(addr_s) && xv_chr_pos >= capacity))
+__CPROVER_ensures((__CPROVER_return_value == -1 && xv_errno == EINVAL) ==> ( \
+        xv_in_len > XCM_ADDR_MAX || (xv_hs_calls == __CPROVER_old(xv_hs_calls) + 1 && xv_hs_rv) || !xv_chr_found || xv_chr_pos > XCM_ADDR_MAX_PROTO_LEN))
+__CPROVER_ensures(__CPROVER_return_value == -1 ==> (xv_hb < (long)capacity ==> (uint8_t)proto[xv_hb] == xv_g_b0))
+;
+
+/* ---- host_parse --------------------------------------------------------------------------------------------------- */
+/* the text is the input string, at most XCM_ADDR_MAX_HOST_LEN characters (host_port_parse checks that before the call; a
+ * longer text would also make the variable-length array ip6_s arbitrarily large) */
+#define HP_LEN xv_in_len
+#define HP_V6(s) (HP_LEN >= 1 && (s)[0] == '[')
+#define HP_V6_SHAPE(s) (HP_LEN >= 2 && (s)[HP_LEN - 1] == ']')
+#define HP_V6_WILD(s) (HP_LEN == 3 && (s)[1] == '*')
+#define HP_V4_WILD(s) (HP_LEN == 1 && (s)[0] == '*')
+#define HP_PTON_ONCE(af) (xv_pton_calls == __CPROVER_old(xv_pton_calls) + 1 && xv_pton_af == (af))
+#define HP_NO_PTON (xv_pton_calls == __CPROVER_old(xv_pton_calls))
+#define HP_NO_DNS (xv_regexec_calls == __CPROVER_old(xv_regexec_calls))
+#define HP_IP4_IS(h, b0, b1, b2, b3) ((h)->ip.addr.ip6[0] == (b0) && (h)->ip.addr.ip6[1] == (b1) && (h)->ip.addr.ip6[2] == (b2) && (h)->ip.addr.ip6[3] == (b3))
+static int host_parse(const char *host_s, struct xcm_addr_host *host)
+__CPROVER_requires(XV_INSTR(host_s) && xv_in_len <= XCM_ADDR_MAX_HOST_LEN && __CPROVER_is_fresh(host, sizeof(*host)))
+__CPROVER_requires(xv_pton_calls >= 0 && xv_pton_calls < 100 && xv_regexec_calls >= 0 && xv_regexec_calls < 100)
+__CPROVER_requires(xv_hb >= 0 && xv_hb < (long)sizeof(*host) && ((const uint8_t *)host)[xv_hb] == xv_g_b0)
+__CPROVER_assigns(xv_errno, __CPROVER_object_upto(host, sizeof(*host)))
+__CPROVER_assigns(xv_pton_calls, xv_pton_af, xv_pton_ret, xv_pton_c, __CPROVER_object_whole(xv_pton_out), xv_regexec_calls, xv_regexec_ret, xv_regexec_on_input, xv_ncpy_len, xv_cpy_len)
+/* (text of contracts/addr.h) */
+__CPROVER_ensures(__CPROVER_return_value == 0 || (__CPROVER_return_value == -1 && xv_errno == EINVAL))
+/* PO[C12] host_parse.consistent: an accepted host is an IPv4 or IPv6 address, or a NUL-terminated name of 1..253 characters */
+__CPROVER_ensures(__CPROVER_return_value == 0 ==> (host->type == xcm_addr_type_ip ? XV_FAM_OK(host->ip.family) : \
+                  (host->type == xcm_addr_type_name && HP_LEN >= 1 && HP_LEN + 1 <= XV_NAME_ROOM && host->name[HP_LEN] == 0)))
+/* PO[C12] host_parse.empty_refused */
+__CPROVER_ensures(HP_LEN == 0 ==> (__CPROVER_return_value == -1 && HP_NO_PTON && HP_NO_DNS))
+/* PO[C12] host_parse.v6_brackets: text starting with '[' is an IPv6 host or nothing; it needs the closing ']' as its last character */
+__CPROVER_ensures((HP_V6(host_s) && !HP_V6_SHAPE(host_s)) ==> (__CPROVER_return_value == -1 && HP_NO_PTON && HP_NO_DNS))
+__CPROVER_ensures((HP_V6(host_s) && __CPROVER_return_value == 0) ==> (host->type == xcm_addr_type_ip && host->ip.family == AF_INET6 && HP_NO_DNS))
+/* PO[C12] host_parse.v6_wildcard: [*] is the IPv6 wildcard address (all zero), decided without inet_pton */
+__CPROVER_ensures((HP_V6(host_s) && HP_V6_SHAPE(host_s) && HP_V6_WILD(host_s)) ==> (__CPROVER_return_value == 0 && HP_NO_PTON && (xv_mc < 16 ==> host->ip.addr.ip6[xv_mc] == 0)))
+/* PO[C12] host_parse.v6_literal: otherwise inet_pton(AF_INET6) is asked once about exactly the text between the brackets, its verdict decides, and its 16 bytes are the address */
+__CPROVER_ensures((HP_V6(host_s) && HP_V6_SHAPE(host_s) && !HP_V6_WILD(host_s)) ==> (HP_PTON_ONCE(AF_INET6) && (__CPROVER_return_value == 0) == (xv_pton_ret == 1) && \
+                  (XV_J_IN(0, HP_LEN - 2) ==> xv_pton_c == host_s[1 + (size_t)xv_j]) && ((xv_j >= 0 && (size_t)xv_j == HP_LEN - 2) ==> xv_pton_c == 0) && \
+                  ((__CPROVER_return_value == 0 && xv_mc < 16) ==> host->ip.addr.ip6[xv_mc] == xv_pton_out[xv_mc])))
+/* PO[C12] host_parse.v4_wildcard: * is INADDR_ANY, decided without inet_pton */
+__CPROVER_ensures((!HP_V6(host_s) && HP_V4_WILD(host_s)) ==> (__CPROVER_return_value == 0 && HP_NO_PTON && HP_NO_DNS && host->type == xcm_addr_type_ip && host->ip.family == AF_INET && host->ip.addr.ip4 == 0))
+/* PO[C12] host_parse.v4_literal: any other non-empty text goes to inet_pton(AF_INET) once, as it is; if that accepts it, its 4 bytes (network order) are the address */
+__CPROVER_ensures((HP_LEN >= 1 && !HP_V6(host_s) && !HP_V4_WILD(host_s)) ==> (HP_PTON_ONCE(AF_INET) && (XV_J_IN(0, HP_LEN + 1) ==> xv_pton_c == host_s[xv_j])))
+__CPROVER_ensures((HP_LEN >= 1 && !HP_V6(host_s) && !HP_V4_WILD(host_s) && xv_pton_ret == 1) ==> (__CPROVER_return_value == 0 && HP_NO_DNS && host->type == xcm_addr_type_ip && host->ip.family == AF_INET && \
+                  HP_IP4_IS(host, xv_pton_out[0], xv_pton_out[1], xv_pton_out[2], xv_pton_out[3])))
+/* PO[C12] host_parse.name: what inet_pton refuses is a DNS name if and only if xcm_dns_is_valid_name says so (length gate 253, then the regex); the name is copied byte for byte with its NUL */
+__CPROVER_ensures((HP_LEN >= 1 && !HP_V6(host_s) && !HP_V4_WILD(host_s) && xv_pton_ret != 1) ==> ( \
+                  (__CPROVER_return_value == 0) == (HP_LEN + 1 <= XV_NAME_ROOM && xv_regexec_calls == __CPROVER_old(xv_regexec_calls) + 1 && xv_regexec_on_input && xv_regexec_ret == 0) && \
+                  (__CPROVER_return_value == 0 ==> (host->type == xcm_addr_type_name && host->name[HP_LEN] == 0 && (XV_J_IN(0, HP_LEN) ==> host->name[xv_j] == host_s[xv_j])))))
+/* failure leaves *host as it was (byte at the arbitrary offset xv_hb) */
+__CPROVER_ensures(__CPROVER_return_value == -1 ==> ((const uint8_t *)host)[xv_hb] == xv_g_b0)
+;
+
+/* ---- the innermost makers and parsers: ENFORCED in unit addr (contracts/addr.h: no_truncated_success, port_range,
+ * name_limits ...), ASSUMED here with the result clauses of that text plus the record of their arguments */
+static int name_port_make(const char *proto, const char *domain_name, uint16_t port, char *addr_s, size_t capacity)
+__CPROVER_requires(__CPROVER_r_ok(proto, 1) && __CPROVER_r_ok(domain_name, XV_NAME_ROOM) && (capacity == 0 || __CPROVER_w_ok(addr_s, capacity)) && XV_MK_PRE)
+__CPROVER_assigns(XV_MK_ASSIGNS)
+__CPROVER_assigns(capacity > 0: __CPROVER_object_upto(addr_s, capacity))
+__CPROVER_ensures(MAKE_HONEST(__CPROVER_return_value, capacity))
+__CPROVER_ensures(MAKE_FAIL(__CPROVER_return_value))
+__CPROVER_ensures(XV_MK_CALL(XV_PK(proto), port, addr_s, capacity) && xv_mk_type == (int)xcm_addr_type_name && xv_mk_namec == domain_name[xv_nj])
+;
+static int ip_port_make(const char *proto, const struct xcm_addr_ip *ip, uint16_t port, char *addr_s, size_t capacity)
+__CPROVER_requires(__CPROVER_r_ok(proto, 1) && __CPROVER_r_ok(ip, sizeof(*ip)) && (capacity == 0 || __CPROVER_w_ok(addr_s, capacity)) && XV_MK_PRE)
+__CPROVER_assigns(XV_MK_ASSIGNS)
+__CPROVER_assigns(capacity > 0: __CPROVER_object_upto(addr_s, capacity))
+__CPROVER_ensures(MAKE_HONEST(__CPROVER_return_value, capacity))
+__CPROVER_ensures(MAKE_FAIL(__CPROVER_return_value))
+__CPROVER_ensures(XV_MK_CALL(XV_PK(proto), port, addr_s, capacity) && XV_MK_IPREC(ip))
+__CPROVER_ensures(XV_MK_IP_OK(xcm_addr_type_ip, ip->family, capacity))
+;
+static int addr_make_ux_uxf(const char *ux_proto, const char *ux_name, char *ux_addr_s, size_t capacity)
+__CPROVER_requires(__CPROVER_r_ok(ux_proto, 1) && (capacity == 0 || __CPROVER_w_ok(ux_addr_s, capacity)) && XV_MK_PRE)
+__CPROVER_assigns(XV_MK_ASSIGNS)
+__CPROVER_assigns(capacity > 0: __CPROVER_object_upto(ux_addr_s, capacity))
+__CPROVER_ensures(MAKE_HONEST(__CPROVER_return_value, capacity))
+__CPROVER_ensures(MAKE_FAIL(__CPROVER_return_value))
+__CPROVER_ensures(XV_MK_CALL(XV_PK(ux_proto), 0, ux_addr_s, capacity) && xv_mk_type == XV_T_UX && XV_BEQ(xv_mk_namep, ux_name == xv_t_name))
+;
+static int host_port_parse(const char *proto, const char *addr_s, struct xcm_addr_host *host, uint16_t *port)
+__CPROVER_requires(__CPROVER_r_ok(proto, 1) && __CPROVER_w_ok(host, sizeof(*host)) && __CPROVER_w_ok(port, sizeof(*port)) && XV_PF_PRE)
+__CPROVER_assigns(xv_errno, XV_PF_GHOSTS, __CPROVER_object_upto(host, sizeof(*host)), *port)
+__CPROVER_ensures(XV_PF_POST(XV_PK(proto), addr_s, host, port))
+;
+static int addr_parse_ux_uxf(const char *ux_proto, const char *ux_addr_s, char *ux_name, size_t capacity)
+__CPROVER_requires(__CPROVER_r_ok(ux_proto, 1) && (capacity == 0 || __CPROVER_w_ok(ux_name, capacity)) && XV_PF_PRE)
+__CPROVER_assigns(xv_errno, XV_PF_GHOSTS)
+__CPROVER_assigns(capacity > 0: __CPROVER_object_upto(ux_name, capacity))
+__CPROVER_ensures(XV_UXP_POST(XV_PK(ux_proto), ux_addr_s, ux_name, capacity))
+;
+
+/* ---- host_port_make: a name goes to name_port_make, an IP address to ip_port_make, with everything else passed on --- */
+#define XV_PROTO_STR(p) (xv_proto_sz >= 1 && xv_proto_sz <= 6 && __CPROVER_is_fresh((p), xv_proto_sz) && (p)[xv_proto_sz - 1] == 0)
+static int host_port_make(const char *proto, const struct xcm_addr_host *host, uint16_t port, char *addr_s, size_t capacity)
+__CPROVER_requires(XV_PROTO_STR(proto) && __CPROVER_is_fresh(host, sizeof(*host)) && XV_HOST_OK(host) && capacity <= XV_CAP_MAX && XV_OUT(addr_s, capacity) && XV_MK_PRE)
+__CPROVER_assigns(XV_MK_ASSIGNS)
+__CPROVER_assigns(capacity > 0: __CPROVER_object_upto(addr_s, capacity))
+/* PO[C12] host_port_make.dispatch: exactly one innermost maker, the one for the host's type, with the caller's protocol name, host, port, buffer and capacity; its result and errno are the result */
+__CPROVER_ensures(XV_MK_CALL(XV_PK(proto), port, addr_s, capacity) && XV_MK_HOSTREC(host))
+/* PO[C12] host_port_make.no_truncated_success */
+__CPROVER_ensures(MAKE_HONEST(__CPROVER_return_value, capacity) && MAKE_FAIL(__CPROVER_return_value) && XV_MK_IP_OK(host->type, host->ip.family, capacity))
+;
+
+/* ---- the sixteen public wrappers: each passes exactly its own protocol name and its arguments on -------------------- */
+#ifdef XV_AP_WRAP_PF
+/* PO[C12] xcm_addr_parse_X.own_protocol_and_arguments */
+XV_PF_WRAPPER(XV_AP_WRAP_PF, XV_AP_WRAP_PK);
+#endif
+#ifdef XV_AP_WRAP_UXP
+/* PO[C12] xcm_addr_parse_UX.own_protocol_and_arguments */
+XV_UXP_WRAPPER(XV_AP_WRAP_UXP, XV_AP_WRAP_PK);
+#endif
+#ifdef XV_AP_WRAP_MK
+/* PO[C12] xcm_addr_make_X.own_protocol_and_arguments */
+XV_MK_WRAPPER(XV_AP_WRAP_MK, XV_AP_WRAP_PK, XV_AP_WRAP_PT);
+#endif
+#ifdef XV_AP_WRAP_UXM
+/* PO[C12] xcm_addr_make_UX.own_protocol_and_arguments */
+XV_UXM_WRAPPER(XV_AP_WRAP_UXM, XV_AP_WRAP_PK);
+#endif
 #endif /* XV_AP_ADDR */
 
 #include "contracts/end.h"
